@@ -11,7 +11,7 @@ namespace AsModel
 /-- The native struct pattern lists exactly the (deduplicated) fields written and `..` iff written. -/
 theorem C12_struct_pat_faithful (v : VExpr) (id : Nat) (path : UPath) (fields : Items) (rest : Bool) :
     ∃ body push, expandPat v (.struct id (some path) fields rest) =
-      .structNamed path.sp v path (dedupNames fields.rootNames []) rest body push :=
+      .structNamed path.sp v path (dedupNames fields.rootNames []) (dedupSps fields.rootNames fields.rootSps []) rest body push :=
   ⟨_, _, rfl⟩
 
 /-- Without `..`, a pattern that omits a field of the struct is rejected (E0027). -/
